@@ -24,10 +24,8 @@ def query_handlers(P):
         if variant not in d:
             raise AnchorMissing("pair::QueryMsg::%s has no arm" % variant)
         region = common.region_of_edge(q.body, d[variant])
-        hs = [(b, P.fn(p) or P.fn(generic_path(p))) for b, p, fr, t in P.calls(q) if b in region and roles.is_workspace_fn(P, p)]
-        if len(hs) != 1:
-            raise AnchorMissing("pair query arm %s calls %d workspace functions" % (variant, len(hs)))
-        out[variant] = (q, hs[0][0], hs[0][1])
+        hb, hf = roles.arm_handler(P, q, region, "pair query arm %s" % variant)
+        out[variant] = (q, hb, hf)
     return out
 
 
@@ -88,7 +86,9 @@ def check_quote_wiring(ctx, inst, fn, pricing, key, reverse=False):
         rs = "|".join(sorted(ctx.roots(v, (("v", "Ok"), ("f", 0)))))
         first = "offer_amount" if reverse else "return_amount"
         want = "{%s=%s.0,spread_amount=%s.1,commission_amount=%s.2}" % (first, ROOT, ROOT, ROOT)
-        if not rs.endswith(want):
+        # the three quoted amounts, field by field (further informational fields of the response are not the property's concern)
+        got3 = [set(ctx.roots(v, (("v", "Ok"), ("f", 0), ("f", n_)))) for n_ in (first, "spread_amount", "commission_amount")]
+        if not rs.endswith(want) and got3 != [{ROOT + ".0"}, {ROOT + ".1"}, {ROOT + ".2"}]:
             inst.fail("%s:response" % key, fn.path, common.span_of_block_term(fn, b), "response is %s, expected fields mapped from components .0/.1/.2 in order" % rs[:260])
         else:
             inst.site("%s: response {%s, spread, commission} ⊢ components .0/.1/.2" % (fn.name, first))
@@ -182,10 +182,7 @@ def _run(ctx):
             rq = roles.entry(P, "router", "query")
             d = common.dispatch(P, rq, ctx.N.query_enum("router"))
             region = common.region_of_edge(rq.body, d[variant])
-            hs = [(b, P.fn(p) or P.fn(generic_path(p))) for b, p, fr, t in P.calls(rq) if b in region and roles.is_workspace_fn(P, p)]
-            if len(hs) != 1:
-                raise AnchorMissing("router query arm %s calls %d workspace functions" % (variant, len(hs)))
-            fold = hs[0][1]
+            fold = roles.arm_handler(P, rq, region, "router query arm %s" % variant)[1]
         except (AnchorMissing, KeyError, TypeError) as e:
             inst.fail("%s:anchor" % inst.id, "-", "-", "anchor-missing: %s" % e)
             continue
